@@ -71,6 +71,12 @@ func (b *backoff) next(attempt int) time.Duration {
 	durf := minf * math.Pow(1.5, float64(attempt))
 	durf = durf + rand.Float64()*minf
 
+	// compare in the float domain: converting an out-of-range float64 to
+	// time.Duration (int64) is not defined and yields a negative delay
+	if durf >= float64(b.maxDelay) {
+		return b.maxDelay
+	}
+
 	delay := time.Duration(durf)
 
 	if delay > b.maxDelay {
